@@ -228,15 +228,29 @@ func init() {
 			}
 			split := false
 			eachInstr(fn, func(in ssa.Instruction) {
-				if c, ok := in.(*ssa.Call); ok && funcID(calleeObj(&c.Call)) == "strings.SplitN" {
+				c, ok := in.(*ssa.Call)
+				if !ok {
+					return
+				}
+				switch funcID(calleeObj(&c.Call)) {
+				case "strings.SplitN":
 					sep, _ := constString(c.Call.Args[1])
 					n, _ := constInt(c.Call.Args[2])
 					if sep == "=" && n == 2 {
 						split = true
 					}
+				case "strings.Cut", "strings.Index":
+					// the first occurrence, by definition
+					if sep, _ := constString(c.Call.Args[1]); sep == "=" {
+						split = true
+					}
+				case "strings.IndexByte", "strings.IndexRune":
+					if k, isK := constInt(c.Call.Args[1]); isK && k == '=' {
+						split = true
+					}
 				}
 			})
-			r.Check(split, fname(fn), "first '=' splits", fn.Pos(), "strings.SplitN(line, \"=\", 2)", "key/value lines are not split at the first '=' only (a value containing '=' is truncated)")
+			r.Check(split, fname(fn), "first '=' splits", fn.Pos(), "split at the first '=' (SplitN(line, \"=\", 2) / Cut / Index)", "key/value lines are not split at the first '=' only (a value containing '=' is truncated)")
 			// node creation only on findChild miss
 			var creates []ssa.Instruction
 			eachInstr(fn, func(in ssa.Instruction) {
@@ -266,10 +280,16 @@ func init() {
 			}
 			r.Check(okMerge, fname(fn), "repeated domains merge", fn.Pos(), "a domain node is created only when findChild misses", "a new domain node is created although one of that name may exist: the earlier block's keys, lines and sub-domains are dropped while parsing still reports success")
 			// comment / empty lines skipped before addLine
+			// the recording of a line: a store to elem.lines (the mutators of elem are analysed in line)
 			var addLine ssa.Instruction
 			eachInstr(fn, func(in ssa.Instruction) {
 				if c := callCommon(in); c != nil && c.StaticCallee() != nil && c.StaticCallee().Name() == "addLine" {
 					addLine = in
+				}
+				if st, ok := in.(*ssa.Store); ok {
+					if fv, base, ok := fieldAddrOf(st.Addr); ok && (fv.Name() == "line" || fv.Name() == "lines") && strings.HasSuffix(typeID(base.Type()), "conf.elem") {
+						addLine = in
+					}
 				}
 			})
 			okSkip := false
@@ -286,6 +306,18 @@ func init() {
 					if k, isK := constInt(c.Y); isK && k == '#' && c.Op == token.NEQ {
 						notHash = true
 					}
+					// strings.HasPrefix(line, "#") known false
+					if call, isCall := f.Cond.(*ssa.Call); isCall && !f.Taken && funcID(calleeObj(&call.Call)) == "strings.HasPrefix" {
+						if p, _ := constString(call.Call.Args[1]); p == "#" {
+							notHash = true
+						}
+					}
+					// len(line) != 0 / > 0
+					if isLenLike(c.X) {
+						if k, isK := constInt(c.Y); isK && ((c.Op == token.NEQ && k == 0) || (c.Op == token.GTR && k == 0) || (c.Op == token.GEQ && k == 1)) {
+							notEmpty = true
+						}
+					}
 				}
 				// the disjunction `(len>0 && line[0]=='#') || line==""` leaves no single dominating fact for '#';
 				// accept the emptiness fact plus the existence of a '#' comparison that jumps back to the scan
@@ -293,6 +325,11 @@ func init() {
 				eachInstr(fn, func(in ssa.Instruction) {
 					if b, ok := in.(*ssa.BinOp); ok && b.Op == token.EQL {
 						if k, isK := constInt(b.Y); isK && k == '#' {
+							hashTest = true
+						}
+					}
+					if call, ok := in.(*ssa.Call); ok && funcID(calleeObj(&call.Call)) == "strings.HasPrefix" {
+						if p, _ := constString(call.Call.Args[1]); p == "#" {
 							hashTest = true
 						}
 					}
